@@ -69,7 +69,7 @@ def install():
 
     def _pack(fmt, *vals):
         with NoTracing():
-            simple = (isinstance(fmt, str) and len(fmt) == 2 and fmt[0] in '<>' and fmt[1] in 'efd'
+            simple = (isinstance(fmt, str) and len(fmt) == 2 and fmt[0] in '<>=@' and fmt[1] in 'efd'
                       and len(vals) == 1 and isinstance(vals[0], B.SymbolicFloat))
             if simple:
                 fv = vals[0]
@@ -91,14 +91,14 @@ def install():
             bits = z3.fpToIEEEBV(narrowed)
             k = w // 8
             terms = [z3.BV2Int(z3.Extract(w - 1 - 8 * j, w - 8 - 8 * j, bits)) for j in range(k)]
-            if fmt[0] == '<':
+            if fmt[0] == '<' or (fmt[0] in '=@' and sys.byteorder == 'little'):
                 terms.reverse()
             return B.SymbolicBytes([B.SymbolicInt(t) for t in terms])
     core._PATCH_REGISTRATIONS[struct.pack] = _pack
 
     def _unpack(fmt, buf):
         with NoTracing():
-            simple = (isinstance(fmt, str) and len(fmt) == 2 and fmt[0] in '<>' and fmt[1] in 'efd'
+            simple = (isinstance(fmt, str) and len(fmt) == 2 and fmt[0] in '<>=@' and fmt[1] in 'efd'
                       and isinstance(buf, B.BytesLike))
         if not simple:
             return orig_unpack(fmt, buf)
@@ -110,7 +110,7 @@ def install():
         with NoTracing():
             if all(not isinstance(x, B.SymbolicInt) for x in items):
                 return struct.unpack(fmt, bytes(items))
-            if fmt[0] == '<':
+            if fmt[0] == '<' or (fmt[0] in '=@' and sys.byteorder == 'little'):
                 items.reverse()
             parts = []
             for x in items:
